@@ -1,21 +1,34 @@
+from .. import smt_units
+
 PROP = {
-    "kani_groups": ["hk_core_min", "hk_emit_min"],
-    "smt": [],
-    "technique": "bounded model checking of the compiled parsers/formatters with Kani/CBMC over symbolic text",
+    "kani_groups": ["hk_core_min", "hk_emit_min", "hk_traceparent"],
+    "smt": [smt_units.unit_calendar],
+    "technique": "bounded model checking of the compiled parsers/formatters with Kani/CBMC over symbolic text; "
+                 "the calendar arithmetic (to_parts / from_parts) by engine E2: MIR -> SMT-LIB Int encoding decided by "
+                 "cvc5 over the full [MIN, MAX] range, cross-checked with z3, validated against the natively executed functions",
     "functions": [
         "emit_core::timestamp::{parse_rfc3339, fmt_rfc3339, Timestamp::try_from_str, from_str, from_parts}",
         "emit_core::path::{is_valid_path, Path::new_ref}",
         "emit::span::{TraceId, SpanId}::{try_from_hex_slice, from_str, to_hex, from_u128/from_u64, from_bytes, to_bytes, Display, from_value}",
+        "emit_traceparent::{Traceparent::{try_from_str, Display, new}, TraceFlags::{from_u8, to_hex, try_from_hex_slice, is_sampled}}",
         "emit::level::{Level::from_str, parse, Display, from_value}, emit::kind::{Kind::from_str, Display, from_value}",
+        "E2 (mir2smt): emit_core::timestamp::Timestamp::{to_parts, from_parts, from_unix} and the constants LEAPOCH_SECS, "
+        "DAYS_PER_400Y/100Y/4Y, DAYS_IN_MONTH, MIN, MAX (MIR bodies, translated on every run)",
     ],
     "bounds": "timestamp text: every length 0..=32 (quick: 0..=19 symbolic, 20,21,22,25,30,31), bytes over "
               "{0,1,2,9,-,:,.,T,Z,+,blank,z,x} plus one U+00E9 at a symbolic offset; paths <= 5 (thorough 7) bytes over {a,b,_,1,:,blank,U+00E9}; "
               "ids: every 32 / 16 byte string over all 256 byte values, every length 0..=35, every non-zero 128/64-bit value; "
-              "levels: strings <= 4 (thorough 6) bytes over an 18-symbol alphabet; kinds <= 6 bytes",
+              "levels: strings <= 4 (thorough 6) bytes over an 18-symbol alphabet; kinds <= 6 bytes; "
+              "E2 calendar obligations: every Timestamp in [MIN, MAX] (secs 0..=253402300799, nanos 0..=999999999, all pairs for "
+              "monotonicity) and every Parts with years 0..=9999, months/days/hours/minutes/seconds 0..=99, nanos 0..=999999999; "
+              "the DAYS_IN_MONTH loop is unrolled 13 times with an unwinding obligation",
     "outside": "bytes outside the alphabets; strings longer than the stated lengths for the lenient parsers",
     "stubs": ["Timestamp::from_parts -> recorder (field-extraction and round-trip harnesses only)",
               "Timestamp::to_parts -> arbitrary in-range Parts (round-trip / order harnesses only)",
-              "core::str::from_utf8 -> asserts ASCII then from_utf8_unchecked (formatter harnesses only)"],
+              "core::str::from_utf8 -> asserts ASCII then from_utf8_unchecked (formatter harnesses only)",
+              "E2 summaries (trusted, /verif/mir2smt/summaries.py): Duration::{new, as_secs, subsec_nanos}, Duration PartialOrd "
+              "(ge/le), integer From/TryInto, i64::trailing_zeros (exact on the low 8 bits, over-approximated above), "
+              "Result::ok, Try::branch / FromResidual for Option"],
     "assumptions": ["input text is valid UTF-8 (built from an alphabet of well-formed scalar values)"],
     "timeout": {"quick": 700, "thorough": 3600},
 }
